@@ -439,8 +439,8 @@ pub fn fut_history<F: FutFl, const DEPTH: usize>(cap: u64, n: u8) {
         "C15: poll / start_send waited (slept) inside the call instead of returning NotReady at once"
     );
     kani::cover!(saw_notready_send, "start_send returned NotReady");
-    kani::cover!(saw_notready_poll, "poll returned NotReady");
-    kani::cover!(saw_end, "the stream yielded None");
+    kani::cover!(DEPTH < 7 || saw_notready_poll, "poll returned NotReady");
+    kani::cover!(DEPTH < 10 || saw_end, "the stream yielded None");
     std::mem::forget(w);
 }
 
@@ -509,6 +509,9 @@ macro_rules! fh {
     };
 }
 fh!(c15_bc_hist, hk_c15_bc_hist, BcF00, 10, 1, 1);
+fh!(c15_bc_hist6, hk_c15_bc_hist6, BcF00, 6, 1, 1);
+fh!(c15_mp_hist6, hk_c15_mp_hist6, MpF00, 6, 2, 2);
+fh!(c15_mp_hist8, hk_c15_mp_hist8, MpF00, 8, 1, 1);
 fh!(c15_mp_hist, hk_c15_mp_hist, MpF00, 10, 2, 2);
 fh!(c15_bc10_hist, hk_c15_bc10_hist, BcF10, 10, 2, 2);
 
